@@ -225,11 +225,21 @@ from harness import c12 as _c12
 @ob('O6.6', 'the key-encryption key for a protected key is derived per RFC 4880 3.7.1 for every passphrase length and coded count (what an independent implementation '
             'will derive when it reads the export): shared with C12-O12.1', 'as C12-O12.1: passphrase length unbounded, all 256 coded counts (Engine A)', engine='A')
 def s2k_arithmetic(tier):
-    return _c12.o12_1(tier)
+    saved = F.String2Key.derive_key
+    F.String2Key.derive_key = encfix.REAL_DERIVE_KEY           # this obligation is about the real derivation, not the stand-in
+    try:
+        return _c12.o12_1(tier)
+    finally:
+        F.String2Key.derive_key = saved
 
 
 def replay_arith(L, coded, iterated_):
-    return _c12.replay_arith(L, coded, iterated_)
+    saved = F.String2Key.derive_key
+    F.String2Key.derive_key = encfix.REAL_DERIVE_KEY
+    try:
+        return _c12.replay_arith(L, coded, iterated_)
+    finally:
+        F.String2Key.derive_key = saved
 
 
 @ob('O6.4', 'the exported protected key depends on the secret integers only through the cipher: with a cipher whose output ignores its input the export is '
@@ -291,7 +301,7 @@ def foreign_forms(spec: int, u255: bool, x0: int, x1: int) -> bool:
     return False
 
 
-SANITY = ['protect_layout(0, 0x81, 2, 3, 4, "pw", bytes(range(16)), bytes(range(8)))', 'protect_layout(1, 0xFF, 0, 0, 0, "", bytes(16), bytes(8))', 'protect_layout(3, 0x80, 9, 9, 9, "\\u00e9", bytes(range(16)), b"abcdefgh")',
+SANITY = ['replay_arith(1100, 0, True)', 'replay_arith(0, 0, False)', 'protect_layout(0, 0x81, 2, 3, 4, "pw", bytes(range(16)), bytes(range(8)))', 'protect_layout(1, 0xFF, 0, 0, 0, "", bytes(16), bytes(8))', 'protect_layout(3, 0x80, 9, 9, 9, "\\u00e9", bytes(range(16)), b"abcdefgh")',
           'unlock_accept(True, b"\\x00\\x08\\x05\\x00\\x0d")', 'unlock_accept(True, b"\\x00\\x08\\x05\\x00\\x0e")', 'unlock_accept(False, b"\\x00\\x08\\x05" + inj_digest(b"\\x00\\x08\\x05"))',
           'unlock_accept(False, bytes(23))', 'unlock_scope(0, 0x81, 2, 3, 4, 0x91, 7, False, True)', 'unlock_scope(3, 0x81, 2, 3, 4, 0x91, 7, True, True)', 'unlock_scope(0, 0x81, 2, 3, 4, 0x91, 7, False, False)',
           'unlock_partial_failure(0, 0x81, 0x82, 0x83, 0x84, 0x91, 0x92)', 'unlock_partial_failure(3, 0x81, 0x82, 0x83, 0x84, 0x91, 0x92)', 'export_independent(0, 0xF1, 9, 9, 9)', 'export_independent(3, 0xF1, 9, 9, 9)', 'foreign_forms(3, False, 1, 2)', 'foreign_forms(0, True, 1, 2)', 'foreign_forms(101, False, 0, 0)', 'foreign_forms(1, True, 0, 0)']
